@@ -126,6 +126,28 @@ impl CrateFacts {
                 g.entry(c.caller.clone()).or_default().insert(c.callee.clone());
             }
         }
+        // trait-method calls that could not be resolved in a generic context may reach every impl of the method
+        for c in &self.calls {
+            // callback through the external generic LR driver: it calls every method of the local ParserDefinition impl
+            if c.callee.contains("__lalrpop_util::state_machine::Parser::<D, I>::") {
+                for f in &self.funcs {
+                    if f.name.contains("as python::__lalrpop_util::state_machine::ParserDefinition>::") {
+                        g.entry(c.caller.clone()).or_default().insert(f.name.clone());
+                    }
+                }
+            }
+            if !c.resolved && !c.callee.starts_with("std::") && !c.callee.starts_with("core::") && !c.callee.starts_with("alloc::") && !c.callee.starts_with("<") {
+                if let Some(p) = c.callee.rfind("::") {
+                    let (tr, m) = (&c.callee[..p], &c.callee[p + 2..]);
+                    let suffix = format!(" as {}>::{}", tr, m);
+                    for f in &self.funcs {
+                        if f.name.ends_with(&suffix) {
+                            g.entry(c.caller.clone()).or_default().insert(f.name.clone());
+                        }
+                    }
+                }
+            }
+        }
         // closures belong to their parent: parent -> closure edge
         for f in &self.funcs {
             if let Some(p) = f.name.find("::{closure#") {
